@@ -61,6 +61,7 @@ def _work(args):
     findings = []
     tmp = tempfile.mkdtemp(prefix='ampyverif_plot_')
     n_plots = 0
+    n_excursions = 0
     try:
         with warnings.catch_warnings():
             warnings.simplefilter('ignore')
@@ -71,7 +72,24 @@ def _work(args):
             before = json.dumps(metamorph.observe(obs), sort_keys=True, default=str)
             prm_before = json.dumps(chunk.prms, sort_keys=True, default=str)
             rc_before = dict(matplotlib.rcParams)
+            from ampycloud import dynamic
             for j in range(rng.choice([2, 3, 4])):
+                if rng.random() < 0.35:
+                    # style excursion: one un-rendered call under another plotting style (needs no LaTeX because nothing is
+                    # drawn), then back to the base style - the plots that follow must behave as if it never happened.
+                    # Whatever the excursion itself does (LaTeX is not installed here) is not judged.
+                    style = rng.choice(['latex', 'metsymb'])
+                    prev = dynamic.AMPYCLOUD_PRMS['MPL_STYLE']
+                    dynamic.AMPYCLOUD_PRMS['MPL_STYLE'] = style
+                    try:
+                        diagnostic(chunk, upto=rng.choice(['raw_data', 'layers']), show=False, save_stem=None)
+                    except Exception:
+                        pass
+                    finally:
+                        dynamic.AMPYCLOUD_PRMS['MPL_STYLE'] = prev
+                        plt.close('all')
+                        matplotlib.rcParams.update(rc_before)
+                    n_excursions += 1
                 upto = rng.choice(['raw_data', 'slices', 'groups', 'layers', 'layers'])
                 show_ceilos = rng.random() < 0.5
                 ref = rng.choice([None, 'FEW010 BKN035', 'NCD', ''])
@@ -109,17 +127,17 @@ def _work(args):
     finally:
         shutil.rmtree(tmp, ignore_errors=True)
     c = obs['chunk']
-    return {'k': k, 'family': fam, 'findings': findings, 'n_plots': n_plots,
+    return {'k': k, 'family': fam, 'findings': findings, 'n_plots': n_plots, 'n_excursions': n_excursions,
             'n_sets': (int(c.n_slices), int(c.n_groups), int(c.n_layers)),
             'digest': hashlib.sha1(before.encode()).hexdigest()[:16],
             'req': scenes.run_request(obs)}
 
 
 def run(chk):
-    n = 64 if chk.tier == 'quick' else 1600
+    n = 128 if chk.tier == 'quick' else 1600
     chk.rule = ('chunks from families synth/multi/degenerate (no hits, single hit, VV hits, zero-okta layers)/split/chain/crop and '
                 'scenes with 9-17 sets (more than the 8 marker styles); per chunk 2-4 diagnostic() calls in sequence with random '
-                'upto / show_ceilos / ref_metar / ref_metar_origin / save formats (None, str, list, []), show=False; non-trivial '
+                'upto / show_ceilos / ref_metar / ref_metar_origin / save formats (None, str, list, []), show=False, with un-rendered excursions to the latex / metsymb style in between; non-trivial '
                 '= the chunk has at least one slice; distinct by chunk digest')
     with Pool(16) as pool:
         results = pool.map(_work, [(chk.seed, k) for k in range(n)], chunksize=1)
@@ -133,6 +151,7 @@ def run(chk):
             chk.count('skipped_' + r['skip'])
             continue
         plots += r['n_plots']
+        chk.count('style_excursions_before_a_plot', r.get('n_excursions', 0))
         if max(r['n_sets']) > 8:
             chk.count('more_sets_than_markers')
         chk.case(r['digest'], nontrivial=r['n_sets'][0] > 0,
